@@ -1,13 +1,14 @@
 """C08 - timestamps are stored as exact UTC instants and ordered correctly."""
 from .common import *
 ID = "C08"
-FUNCTIONS = [TF + f for f in ("_insert_helper", "insert", "insert_multiple")] + [IX + f for f in ("latest_time", "_search_timestamps", "_insert_time", "insert")] + UTILS + ["lemma:time"] + [TF + "_generate_updater", TF + "_generate_updater.<locals>.perform_update", "tinyflux.point.Point._serialize_to_list", "tinyflux.point.Point._deserialize_from_list", "lemma:codec"]
+FUNCTIONS = [TF + f for f in ("_insert_helper", "insert", "insert_multiple")] + [IX + f for f in ("latest_time", "_search_timestamps", "_insert_time", "insert")] + UTILS + ["lemma:time"] + [TF + "_generate_updater", TF + "_generate_updater.<locals>.perform_update", "tinyflux.point.Point._serialize_to_list", "tinyflux.point.Point._deserialize_from_list", "lemma:codec", IX + "get_timestamps", TF + "get_timestamps"]
 ASSUMED = ["bisect.bisect_left", "bisect.bisect_right"]
 STANDIN = "standins/csvio.py"
 TRUSTED = TRUSTED_CORE + [STORAGE_ASSUMED, TIME_ASSUMED,
                           "datetime model: astimezone(utc) keeps the instant (dt_utc), timestamp() is a function of the datetime; IEEE-754: |RN(x)-x| <= 2^-21 for |x| < 2^33 (years 1700-2240) is the hypothesis of the two LRA lemmas",
                           "codec time cell: datetime.isoformat/fromisoformat are inverse on naive values and replace(tzinfo=None).replace(tzinfo=utc) is the identity on UTC-normalised values (ASSUMED library laws of contracts/codec_model.py); the round trip of the time cell is then proved in lemma:codec",
-                          "NOT under contract (bounded stand-in only): Index.get_timestamps' reconstruction of datetimes from floats; CSVStorage._deserialize_timestamp"]
+                          "get_timestamps is proved to return, in insertion order, datetimes whose timestamp() equals the stored point's (index path: fromtimestamp(ts).astimezone(utc) with dt_ts(dt_utc(dt_from_ts(x))) = x ASSUMED; scan path: the abstract Storage._deserialize_timestamp clause ASSUMED); that equal float timestamps mean equal microsecond instants is lemma:time",
+                          "NOT under contract: CSVStorage._deserialize_timestamp"]
 ASSUMPTIONS = ["naive datetimes are interpreted by CPython's local-time rules (validated by the stand-in under four process time zones)"]
 
 # the codec functions are shared with C05: the value cells (measurement, tag and field values - where KF-16 lives) are C05's claim, the time cell is C08's
